@@ -78,6 +78,22 @@ def fresh_region(w, kind, rid):
     return RegionSpec(kind, ps, rid)
 
 
+class _PointSummary(object):
+    """Callable installed as `state.isPointExcluded`: runs the real method body on all of its paths and merges
+    them into one boolean.  Survives copy.deepcopy(state) by re-binding to the copied state."""
+
+    def __init__(self, state, ctx):
+        self.state, self.ctx = state, ctx
+
+    def __call__(self, x, y):
+        from symx.values import _mk_bool
+        real = type(self.state).isPointExcluded
+        return _mk_bool(self.ctx.summarise(real, self.state, x, y))
+
+    def __deepcopy__(self, memo):
+        return _PointSummary(memo.get(id(self.state), self.state), self.ctx)
+
+
 class Skip(Exception):
     pass
 
@@ -165,18 +181,7 @@ class Pipe(object):
 
     # -- isPointExcluded is pure: execute its real body on all paths, hand the caller ONE SymBool
     def _summarise_point_test(self):
-        from symx.values import _mk_bool
-        real = self.state.isPointExcluded
-        ctx = self.w.ctx
-
-        state = self.state
-
-        def isPointExcluded(x, y):
-            return _mk_bool(ctx.summarise(real, x, y))
-        state.isPointExcluded = isPointExcluded
-        if self.plugin is not None:
-            # PRINT_STARTED etc. keep the same state object, so the instance attribute survives resetState
-            pass
+        self.state.isPointExcluded = _PointSummary(self.state, self.w.ctx)
 
     # -- planArc stub: arbitrary sample points, last one is the commanded end point (C16 decides
     #    what the real planArc returns; the pipeline properties must hold for any samples)
